@@ -532,6 +532,8 @@ type c13Result struct {
 	Capped bool   `json:"capped"`
 	// Completed is the highest deviation bound whose exploration finished (-1 none); equals Bound unless capped.
 	Completed int      `json:"completed_bound"`
+	// Closed: the exploration with unbounded deviations visited every reachable global state of the script.
+	Closed bool `json:"closed_unbounded"`
 	Outcomes  []string `json:"outcomes"`
 	Failure   string   `json:"failure,omitempty"`
 	Schedule  []int    `json:"schedule,omitempty"`
@@ -539,6 +541,11 @@ type c13Result struct {
 
 // c13Explore explores one script to the given bound (bound<0 = unbounded with pruning).
 func c13Explore(sc c13Script, bound int, prune bool, maxExecs int, stop func() bool) c13Result {
+	return c13ExploreU(sc, bound, prune, maxExecs, stop, false)
+}
+
+// c13ExploreU: iterative bounds 0..bound, then (if thenUnbounded and nothing failed) the unbounded exploration.
+func c13ExploreU(sc c13Script, bound int, prune bool, maxExecs int, stop func() bool, thenUnbounded bool) c13Result {
 	outcomes := map[string]bool{}
 	var lastJudge string
 	// iterative deviation bounding: 0, 1, 2, ... so that a capped exploration still reports the bound it completed
@@ -548,6 +555,9 @@ func c13Explore(sc c13Script, bound int, prune bool, maxExecs int, stop func() b
 		bounds = nil
 		for b := 0; b <= bound; b++ {
 			bounds = append(bounds, b)
+		}
+		if thenUnbounded && prune {
+			bounds = append(bounds, 1<<30)
 		}
 	}
 	res := c13Result{Script: sc.Name, Bound: bound, Completed: -1}
@@ -570,11 +580,18 @@ func c13Explore(sc c13Script, bound int, prune bool, maxExecs int, stop func() b
 		res.Capped = ex.Capped
 		res.Failure, res.Schedule = ex.Failure, ex.FailedAt
 		if ex.Failure != "" || ex.Capped {
+			if b >= 1<<29 && ex.Failure == "" && res.Completed >= 0 {
+				res.Capped = false // the bounded part is complete; only the unbounded attempt ran out of budget
+			}
 			break
 		}
-		res.Completed = b
-		if bound < 0 {
-			res.Completed = -2 // unbounded exploration closed
+		if b >= 1<<29 {
+			res.Closed = true
+			if bound < 0 {
+				res.Completed = -2
+			}
+		} else {
+			res.Completed = b
 		}
 	}
 	for o := range outcomes {
@@ -591,6 +608,7 @@ func runC13Sub(r *ev.Run) {
 		Scripts []c13Script `json:"scripts"`
 		Bound   int         `json:"bound"`
 		Prune   bool        `json:"prune"`
+		Unbound bool        `json:"then_unbounded"`
 		MaxExec int         `json:"max_execs"`
 		Budget  int         `json:"budget_s"`
 	}
@@ -620,7 +638,7 @@ func runC13Sub(r *ev.Run) {
 		// an equal share of what is left for every script still to come
 		share := time.Until(deadline) / time.Duration(len(job.Scripts)-i)
 		scDeadline := time.Now().Add(share)
-		enc.Encode(c13Explore(sc, job.Bound, job.Prune, job.MaxExec, func() bool { return time.Now().After(scDeadline) }))
+		enc.Encode(c13ExploreU(sc, job.Bound, job.Prune, job.MaxExec, func() bool { return time.Now().After(scDeadline) }, job.Unbound))
 	}
 	os.Exit(0)
 }
@@ -633,8 +651,8 @@ func runC13(r *ev.Run) {
 	}
 	scripts := c13Scripts(r.Thorough())
 	r.Set("scripts_in_grammar", len(scripts))
-	// quick: the key scripts plus a seed-rotated 1/48 of the grammar at bound 2, two scripts unbounded (capped);
-	// thorough: every script at bound 2, a seed-rotated 1/12 at bound 3, 16 scripts unbounded (capped)
+	// quick: the key scripts plus a seed-rotated 1/48 of the grammar: bounds 0..2, then unbounded within the time share;
+	// thorough: every script likewise, a seed-rotated 1/12 additionally at bound 3
 	isKey := func(sc c13Script) bool {
 		for _, k := range c13KeyScripts {
 			if sc.Name == k {
@@ -659,6 +677,7 @@ func runC13(r *ev.Run) {
 	var execs, points, states, capped, outcomes atomic.Int64
 	var mu sync.Mutex
 	completed := map[string]int{}
+	closed := 0
 	sample := 0
 	handle := func(res c13Result, sc c13Script, b int) {
 		execs.Add(int64(res.Execs))
@@ -670,6 +689,9 @@ func runC13(r *ev.Run) {
 		}
 		mu.Lock()
 		completed[fmt.Sprintf("wanted %d completed %d", b, res.Completed)]++
+		if res.Closed {
+			closed++
+		}
 		mu.Unlock()
 		if res.Failure != "" {
 			cls := "schedule/" + strings.Join(strings.Fields(strings.SplitN(res.Failure, ":", 2)[0])[:1], "-")
@@ -686,7 +708,7 @@ func runC13(r *ev.Run) {
 		}
 		mu.Unlock()
 	}
-	runJobs := func(list []c13Script, b int, prune bool, maxExec int, budget int) {
+	runJobs := func(list []c13Script, b int, prune bool, maxExec int, budget int, thenUnbounded ...bool) {
 		// shard scripts over sub-processes (the scheduler is process-global)
 		nw := ev.Workers()
 		shards := make([][]c13Script, nw)
@@ -697,7 +719,7 @@ func runC13(r *ev.Run) {
 			if len(shards[item]) == 0 {
 				return
 			}
-			results, err := c13Sub(bin, shards[item], b, prune, maxExec, budget)
+			results, err := c13Sub(bin, shards[item], b, prune, maxExec, budget, thenUnbounded...)
 			if err != "" {
 				fmt.Fprintln(os.Stderr, "instrument error: C13 sub-run: "+err)
 				os.Exit(2)
@@ -719,7 +741,8 @@ func runC13(r *ev.Run) {
 	go func() { defer side.Done(); traces = c13TraceValidation(bin) }()
 	go func() { defer side.Done(); raceInfo = c13RacePass(r) }()
 	total := r.Remaining().Seconds()
-	runJobs(sel, bound, true, 0, int(total*ev.Pick(r, 0.45, 0.40)))
+	// bounds 0,1,2 first, then with what is left of each script's share the unbounded exploration
+	runJobs(sel, bound, true, 0, int(total*ev.Pick(r, 0.62, 0.50)), true)
 	if len(deep) > 0 {
 		runJobs(deep, 3, true, 0, int(total*0.30))
 	}
@@ -727,11 +750,11 @@ func runC13(r *ev.Run) {
 	real := c13RealScripts()
 	runJobs(real, ev.Pick(r, 1, 2), true, 0, int(total*0.15))
 	r.Set("real_search_scripts", len(real))
-	// unbounded deviations: state-key pruning closes the space (or the cap is reported)
-	runJobs(key, -1, true, 0, int(total*ev.Pick(r, 0.20, 0.20)))
+	_ = key
+	r.Set("scripts_closed_with_unbounded_deviations", closed)
 	r.Set("scripts_explored_bound3", len(deep))
 	r.Set("scripts_explored_bounded", len(sel))
-	r.Set("scripts_explored_unbounded", len(key))
+	r.Set("scripts_explored_unbounded", closed)
 	r.Set("bound", bound)
 
 	side.Wait()
@@ -757,18 +780,18 @@ func runC13(r *ev.Run) {
 	if capped.Load() > 0 {
 		r.Cut()
 	}
-	r.Set("rule", "the real uci package with its channel/WaitGroup/Pool/timer/clock operations redirected to a cooperative scheduler by an overlay produced from the current sources; threads: reader, handler(+search), writer, interrupt goroutine per go, timers; scripts from a bounded conforming grammar (prefix x go kind x up to two commands during the search x suffix) with a controllable mock search (finishing or blocking); all interleavings within the deviation bound (preemptions, short writes, pool misses) with global-state-key pruning, key scripts unbounded; oracle: no panic, no deadlock, all threads finished, each go exactly one bestmove after its info lines, each isready one readyok, every line intact; states = distinct global states, transitions = scheduling points, non-trivial = distinct transcripts")
+	r.Set("rule", "the real uci package with its channel/WaitGroup/Pool/timer/clock operations redirected to a cooperative scheduler by an overlay produced from the current sources; threads: reader, handler(+search), writer, interrupt goroutine per go, timers; scripts from a bounded conforming grammar (prefix x go kind x up to two commands during the search x suffix) with a controllable mock search (finishing or blocking); per script all interleavings with 0, 1, 2 deviations (preemptions, short writes, pool misses) with global-state-key pruning, then - within the script's time share - with unbounded deviations until every reachable global state has been expanded (scripts_closed_with_unbounded_deviations); oracle: no panic, no deadlock, all threads finished, each go exactly one bestmove after its info lines, each isready one readyok, every line intact; states = distinct global states, transitions = scheduling points, non-trivial = distinct transcripts")
 	r.Assume("data races are invisible to a cooperative scheduler: complementary free-running race-detector pass; its silence proves nothing")
 	r.Assume("the mock search is a model of the real search's interaction protocol; real-search traces are validated against it (traces_validated_against_impl)")
 }
 
-func c13Sub(bin string, scripts []c13Script, bound int, prune bool, maxExec, budget int) ([]c13Result, string) {
+func c13Sub(bin string, scripts []c13Script, bound int, prune bool, maxExec, budget int, thenUnbounded ...bool) ([]c13Result, string) {
 	f, err := os.CreateTemp("", "c13job")
 	if err != nil {
 		return nil, err.Error()
 	}
 	defer os.Remove(f.Name())
-	json.NewEncoder(f).Encode(map[string]any{"scripts": scripts, "bound": bound, "prune": prune, "max_execs": maxExec, "budget_s": max(budget, 5)})
+	json.NewEncoder(f).Encode(map[string]any{"scripts": scripts, "bound": bound, "prune": prune, "max_execs": maxExec, "budget_s": max(budget, 5), "then_unbounded": len(thenUnbounded) > 0 && thenUnbounded[0]})
 	f.Close()
 	cmd := exec.Command(bin, "C13sub")
 	cmd.Env = append(os.Environ(), "VERIF_C13_JOB="+f.Name(), "GOMAXPROCS=2")
